@@ -158,8 +158,9 @@ def parse_tlc_output(text):
     return recs, stats
 
 
-def tlc(module, cfg, env, name, timeout=3600, nworkers=None, extra=None, coverage=False, mem="4g"):
-    """runs TLC on spec/<module>.tla with spec/<cfg>; returns (records, stats, raw text)"""
+def tlc(module, cfg, env, name, timeout=3600, nworkers=None, extra=None, coverage=False, mem="4g", kill_after=None):
+    """runs TLC on spec/<module>.tla with spec/<cfg>; returns (records, stats, raw text).
+    kill_after: seconds after which TLC is stopped on purpose (simulation mode); then exit status 124 is expected"""
     meta = os.path.join(WORK, "tlc", name)
     shutil.rmtree(meta, ignore_errors=True)
     os.makedirs(meta, exist_ok=True)
@@ -171,12 +172,24 @@ def tlc(module, cfg, env, name, timeout=3600, nworkers=None, extra=None, coverag
     if extra:
         cmd += extra
     cmd += ["-config", cfg, module + ".tla"]
+    if kill_after:
+        cmd = ["timeout", str(int(kill_after))] + cmd
     t0 = time.time()
     p = sh(cmd, cwd=SPEC, env=e, timeout=timeout, check=False)
     text = p.stdout or ""
     recs, stats = parse_tlc_output(text)
     stats["wall_s"] = round(time.time() - t0, 2)
     stats["exit"] = p.returncode
+    if kill_after and p.returncode == 124 and not stats["errors"]:
+        stats["exit"] = 0
+        stats["stopped_on_purpose"] = True
+        m = re.findall(r"Progress: (\d+) states checked, (\d+) traces generated", text)
+        if m and not stats["distinct"]:
+            stats["states"] = stats["distinct"] = int(m[-1][0])
+        if not stats["distinct"]:
+            # no progress line yet: count the states of the printed behaviours (one state per recorded operation)
+            n = sum(len(r.get("hist", [])) + 1 for r in recs.get("REPLAY", []))
+            stats["states"] = stats["distinct"] = n
     shutil.rmtree(meta, ignore_errors=True)
     with open(os.path.join(workdir("logs"), name + ".tlc.log"), "w", encoding="utf-8") as f:
         f.write(text)
